@@ -10,7 +10,9 @@ VARIABLE ci
 Init == ci \in 1..Len(Cases)
 Next == UNCHANGED ci
 Spec == Init /\ [][Next]_ci
-Same(c) == ~c.err /\ c.out = Formatted(c.P, c.chars)
+\* (whether an empty last line follows a trailing break code is not something the property fixes)
+Trim(x) == IF Len(x) > 0 /\ SubSeq(x, Len(x), Len(x)) = "\n" THEN SubSeq(x, 1, Len(x) - 1) ELSE x
+Same(c) == ~c.err /\ Trim(c.out) = Trim(Formatted(c.P, c.chars))
 Report == ~Same(Cases[ci]) =>
             PrintT(<<"DIVERGED", ci, Cases[ci].id, IF WellFormed(Cases[ci].chars) THEN "violation" ELSE "drift", Formatted(Cases[ci].P, Cases[ci].chars)>>)
 =============================================================================
